@@ -24,17 +24,38 @@ fn rep(c: &Case, kind: &str) -> Value {
     json!({"kind": kind, "lat": c.lat, "lon": c.lon, "surface": c.surface, "odd": c.odd, "ref_lat": c.ref_lat, "ref_lon": c.ref_lon})
 }
 
-fn decode(c: &Case) -> Result<(Option<(f64, f64)>, f64, String), Failure> {
+/// What the report's own `latitude` / `longitude` fields hold when it is decoded (a pure function of the case): the
+/// decoders are functions of the CPR counts, the parity and the reference; a position attached by an earlier decoding
+/// pass (decode_position and the bindings write it back) must not change the answer.
+fn stale_position(c: &Case, v: u64) -> Option<(f64, f64)> {
+    match (v >> 20) & 7 {
+        4 => Some((0.0, 0.0)),
+        5 => Some(((c.lat + 3.7).clamp(-90.0, 90.0), c.lon - 11.0)),
+        6 => Some((if c.ref_lat.is_finite() { (-c.ref_lat).clamp(-90.0, 90.0) } else { 12.0 }, 77.0)),
+        7 => Some((f64::NAN, f64::NAN)),
+        _ => None,
+    }
+}
+
+fn decode(ctx: &Ctx, c: &Case) -> Result<(Option<(f64, f64)>, f64, String), Failure> {
     let i = c.odd as u32;
     let e = encode(c.lat, c.lon, i, c.surface);
     let (frame, got) = if c.surface {
         let v = h64(&(c.lat.to_bits(), c.lon.to_bits(), c.odd));
-        let (f, m) = surface_via_decoder(0x100000 + (v >> 44) as u32, 5 + (v & 3) as u8, ((v >> 2) & 127) as u8, i, e.yz, e.xz).map_err(|x| Failure::new("c05:frame-rejected", x, rep(c, "inrange")))?;
+        let (f, mut m) = surface_via_decoder(0x100000 + (v >> 44) as u32, 5 + (v & 3) as u8, ((v >> 2) & 127) as u8, i, e.yz, e.xz).map_err(|x| Failure::new("c05:frame-rejected", x, rep(c, "inrange")))?;
+        if let Some((la, lo)) = stale_position(c, v) {
+            (m.latitude, m.longitude) = (Some(la), Some(lo));
+            ctx.class("report carried a position from an earlier decoding pass");
+        }
         (f, catch(|| surface_position_with_reference(&m, c.ref_lat, c.ref_lon)))
     } else {
         let v = h64(&(c.lat.to_bits(), c.lon.to_bits(), c.odd));
         const TCS: [u8; 13] = [9, 10, 11, 12, 13, 14, 15, 16, 17, 18, 20, 21, 22];
-        let (f, m) = airborne_via_decoder(0x100000 + (v >> 44) as u32, TCS[(v % 13) as usize], ((v >> 8) & 0xfff) as u16, i, e.yz, e.xz).map_err(|x| Failure::new("c05:frame-rejected", x, rep(c, "inrange")))?;
+        let (f, mut m) = airborne_via_decoder(0x100000 + (v >> 44) as u32, TCS[(v % 13) as usize], ((v >> 8) & 0xfff) as u16, i, e.yz, e.xz).map_err(|x| Failure::new("c05:frame-rejected", x, rep(c, "inrange")))?;
+        if let Some((la, lo)) = stale_position(c, v) {
+            (m.latitude, m.longitude) = (Some(la), Some(lo));
+            ctx.class("report carried a position from an earlier decoding pass");
+        }
         (f, catch(|| airborne_position_with_reference(&m, c.ref_lat, c.ref_lon)))
     };
     let got = got.map_err(|p| Failure::new("c05:panic", format!("{p} frame {}", hex::encode(&frame)), rep(c, "any")))?;
@@ -59,7 +80,7 @@ pub fn check_inrange(ctx: &Ctx, c: &Case) -> Check {
         return Ok(());
     }
     ctx.eval();
-    let (got, _rlat, frame) = decode(c)?;
+    let (got, _rlat, frame) = decode(ctx, c)?;
     let mut r = rep(c, "inrange");
     r["frame"] = json!(frame);
     let dref = haversine_m(c.lat, c.lon, c.ref_lat, c.ref_lon);
@@ -95,7 +116,7 @@ pub fn check_any(ctx: &Ctx, c: &Case) -> Check {
     let i = c.odd as u32;
     let span = if c.surface { 90.0 } else { 360.0 };
     ctx.eval();
-    let (got, _rlat, frame) = decode(c)?;
+    let (got, _rlat, frame) = decode(ctx, c)?;
     let mut r = rep(c, "any");
     r["frame"] = json!(frame);
     ctx.nontrivial(h64(&("any", c.lat.to_bits(), c.lon.to_bits(), c.surface, c.odd, c.ref_lat.to_bits(), c.ref_lon.to_bits())));
@@ -234,7 +255,7 @@ fn any_case() -> impl Strategy<Value = Case> {
 }
 
 pub fn run(ctx: &Ctx) {
-    ctx.set_rule("in-range family: truth from the C04 strata, airborne/surface x even/odd, reference = truth moved along a random bearing by r*0.95*range (r uniform, r = 1 for 1/8), additionally within 0.95 half-zones per coordinate (else excluded, counted); oracle: position within 10 m, longitude modulo 360. any-reference family: arbitrary finite references (huge, denormal, zone edges, poles, antimeridian); oracle: absent, or latitude in [-90,90] and within half a zone of the reference in both coordinates (zone width recomputed with an independent NL). sequence family: the same report against an arbitrary reference, a report a whole number of latitude zones away (same latitude count) against its own near reference, the other parity of the same point, then the case itself, forwards and backwards on one thread, each judged by its own oracle. Carrier frames use every airborne / surface type code, any altitude / movement code and address. Non-trivial = in-range case with the reference >= 1 NM from the truth, or any any-reference case; distinct by (counts, format, parity, reference bits).");
+    ctx.set_rule("in-range family: truth from the C04 strata, airborne/surface x even/odd, reference = truth moved along a random bearing by r*0.95*range (r uniform, r = 1 for 1/8), additionally within 0.95 half-zones per coordinate (else excluded, counted); oracle: position within 10 m, longitude modulo 360. any-reference family: arbitrary finite references (huge, denormal, zone edges, poles, antimeridian); oracle: absent, or latitude in [-90,90] and within half a zone of the reference in both coordinates (zone width recomputed with an independent NL). sequence family: the same report against an arbitrary reference, a report a whole number of latitude zones away (same latitude count) against its own near reference, the other parity of the same point, then the case itself, forwards and backwards on one thread, each judged by its own oracle. Half of the reports carry, in their own latitude / longitude fields, a position left by an earlier decoding pass (another place, the origin, NaN): the answer may not depend on it. Carrier frames use every airborne / surface type code, any altitude / movement code and address. Non-trivial = in-range case with the reference >= 1 NM from the truth, or any any-reference case; distinct by (counts, format, parity, reference bits).");
     ctx.assume("independent CPR encoder; great-circle distances on a sphere R = 6371008.8 m");
     let n1 = ctx.tier.pick(1_000_000u32, 12_000_000u32);
     let n2 = ctx.tier.pick(500_000u32, 6_000_000u32);
